@@ -59,6 +59,7 @@ const (
 	sigRegionPast       = "region-up-to-12-bytes-past-block-end-accepted"
 	sigSeekBuckets      = "cursor-seek-loses-nested-buckets-held-in-treap-layer"
 	sigTreapSeekStart   = "treap-iterator-seek-below-start-key"
+	sigTreapStaleSeek   = "treap-iterator-reposition-keeps-stale-reseek-key"
 )
 
 func known(sig string) bool { return ev.IsKnown("C05", sig) }
@@ -170,7 +171,7 @@ func genBytes(t *rapid.T, label string, lens []int) []byte {
 
 // genBlock draws a serialisable block: any header, 0..4 small transactions.
 // uniq makes the header unique within a case.
-func genBlock(t *rapid.T, uniq uint32) *blk {
+func genBlock(t *rapid.T, uniq uint32, maxLen int) *blk {
 	var mb wire.MsgBlock
 	mb.Header.Version = rapid.Int32().Draw(t, "ver")
 	rb := rapid.SliceOfN(rapid.Byte(), 64, 64).Draw(t, "hdr")
@@ -198,11 +199,19 @@ func genBlock(t *rapid.T, uniq uint32) *blk {
 		tx.LockTime = rapid.Uint32().Draw(t, "lock")
 		mb.AddTransaction(tx)
 	}
+	// a block record (block + 12 bytes) never exceeds the block-file size limit (512 MiB in
+	// production vs 4 MB blocks): drop transactions until the generated block fits
+	for maxLen > 0 && mb.SerializeSize() > maxLen && len(mb.Transactions) > 0 {
+		mb.Transactions = mb.Transactions[:len(mb.Transactions)-1]
+	}
 	var buf bytes.Buffer
 	if err := mb.Serialize(&buf); err != nil {
 		infra(t, "cannot serialise generated block: %v", err)
 	}
 	raw := buf.Bytes()
+	if maxLen > 0 && len(raw) > maxLen {
+		infra(t, "generated block of %d bytes exceeds the cap %d", len(raw), maxLen)
+	}
 	b := &blk{b: btcutil.NewBlock(&mb), raw: raw, hash: kvmodel.BlockHash(raw)}
 	b.ch = chainhash.Hash(b.hash)
 	// harness self-check: the independent hash equals the key ffldb will use
